@@ -55,6 +55,10 @@ pub struct Policy {
     /// bridge hosts: probability of offering malformed bytes (as an event or as a response)
     #[serde(default)]
     pub p_bad: f64,
+    /// long histories: while the shell holds more requests than this, nothing new is started and
+    /// (where the host can) the oldest one is dropped every other step; 0 = no limit
+    #[serde(default)]
+    pub max_out: u32,
 }
 
 #[derive(Deserialize, Serialize, Clone, Debug)]
@@ -770,7 +774,10 @@ pub fn run_case(case: &Case) -> Vec<Value> {
                     }
                 }
             }
-            let step = if x < pol.p_run && !case.table.progs.is_empty() && case.host != "direct" && case.host != "stream" {
+            let crowded = pol.max_out > 0 && known.ops.len() > pol.max_out as usize;
+            let step = if crowded && host.can_drop() && rng.random::<bool>() {
+                StepIn::Drop { o: known.ops[0].0, nt: false }
+            } else if !crowded && x < pol.p_run && !case.table.progs.is_empty() && case.host != "direct" && case.host != "stream" {
                 StepIn::Run { p: rng.random_range(0..case.table.progs.len() as u32) }
             } else if x < pol.p_run + pol.p_noop {
                 StepIn::Noop
